@@ -164,3 +164,52 @@ Example C12_hc_mid_f18_nonvacuous :
   hs_dctx (snd ex_hst4_f18) = None /\
   strict_valid (ex_dict ++ ex_b1) (ex_hout ex_hst4_f18 (HContinue 5040 63 200)) = Some ex_b2.
 Proof. exact (conj ex_hstream_pre_f18 (conj ex_htrace_f18 ex_hresults_f18)). Qed.
+
+(* ================================================================ HC, hash-chain levels (compression levels 3..9)
+   - C12_hc_chain_loadDict: LZ4_loadDictHC of ANY size: only the last min(size, 64 KB) bytes are designated, dictLimit = lowLimit
+     = 64 KB, the dictionary is indexed by LZ4HC_Insert (when >= 4 bytes) and the tables keep the chain invariant, the context
+     is clean and can serve as a dictionary context.
+   - C12_hc_chain_loadDict_roundtrip: loadDictHC + a block ANYWHERE in memory decodes with the dictionary bytes.
+   - C12_hc_chain_attach_roundtrip: LZ4_attach_HC_dictionary onto a working stream that has not started; whenever the call stays
+     in the model (first block > 4 KB: the dictionary context is copied and LZ4HC_setExternalDict indexes its last bytes)
+     the block decodes with the dictionary bytes.  The in-place search LZ4HC_searchExtDict (<= 4 KB) is NOT modelled. *)
+From LZ4V Require Import Model.HcChain Model.HcChainApi Model.HcChainStream Proofs.HcChainStreamProofs Proofs.HcChainStreamHist Proofs.HcChainStreamExamples.
+
+Theorem C12_hc_chain_loadDict :
+  forall m c a n c' r,
+  0 <= n -> 0 <= a -> cs_loadDict m c a n = Some (c', r) ->
+  cs_ok c' /\ d_ok (cs_core c') /\ kc_ok (cs_core c') (cs_chain c') /\ hs_dctx (cs_hs c') = None /\ r = Z.min n K64 /\
+  k_prefixStart (cs_core c') = a + n - r /\ k_end (cs_core c') = a + n /\
+  k_dictLimit (cs_core c') = K64 /\ k_lowLimit (cs_core c') = K64 /\ k_dirty (cs_core c') = false /\
+  chain_level (k_level (cs_core c')) = true.
+Proof. exact cs_loadDict_ok. Qed.
+Print Assumptions C12_hc_chain_loadDict.
+
+Theorem C12_hc_chain_loadDict_roundtrip :
+  forall m c a n c' r src k cap ret consumed out hw c'',
+  hmem_ok m -> 0 <= n -> 0 <= a -> 0 < src -> 0 <= k < 2147483648 -> 0 <= cap ->
+  cs_loadDict m c a n = Some (c', r) ->
+  cs_continue m c' src k cap = Some (CRes ret consumed out hw c'') ->
+  (compressBound k <= cap -> k <= LZ4_MAX_INPUT_SIZE -> 0 < ret) /\
+  (0 < ret -> ret = Z.of_nat (length out) /\ ret <= Z.max cap (compressBound k) /\ consumed = k /\
+              win_strict (load_list m a (Z.to_nat n)) out (load_list m src (Z.to_nat k))).
+Proof. exact chain_loadDict_roundtrip. Qed.
+Print Assumptions C12_hc_chain_loadDict_roundtrip.
+
+Theorem C12_hc_chain_attach_roundtrip :
+  forall m c0 d a n dc r src k cap ret consumed out hw c'',
+  hmem_ok m -> cs_ok c0 -> k_dirty (cs_core c0) = false -> k_prefixStart (cs_core c0) = 0 ->
+  0 <= n -> 0 <= a -> 0 < src -> 0 <= k < 2147483648 -> 0 <= cap ->
+  cs_loadDict m d a n = Some (dc, r) ->
+  cs_continue m (cs_attach c0 (Some dc)) src k cap = Some (CRes ret consumed out hw c'') ->
+  (compressBound k <= cap -> k <= LZ4_MAX_INPUT_SIZE -> 0 < ret) /\
+  (0 < ret -> ret = Z.of_nat (length out) /\ ret <= Z.max cap (compressBound k) /\ consumed = k /\
+              win_strict (load_list m a (Z.to_nat n)) out (load_list m src (Z.to_nat k))).
+Proof. exact chain_attach_roundtrip. Qed.
+Print Assumptions C12_hc_chain_attach_roundtrip.
+
+Example C12_hc_chain_nonvacuous :
+  hmem_ok ex_m /\
+  strict_valid ex_dict (ex_cout ex_cst1 (CContinue 3000 78 200)) = Some ex_b1 /\
+  strict_valid [] (ex_cout ex_cst1 (CContinue 3000 78 200)) = None.
+Proof. exact (conj ex_m_ok ex_cresults). Qed.
